@@ -200,19 +200,36 @@ class Prop:
                     self.add_trait(name, make_trait(pol))
             base_ns["_trait_added_changed"] = _trait_added_changed
         Base = type(T.HasTraits)("C13Base", (root,), base_ns)
-        Sub = type(T.HasTraits)("C13Sub", (Base,), ns(cfg["sub"]))
-        Base.__qualname__, Sub.__qualname__ = "C13Base", "C13Sub"
-        DYN.C13Base, DYN.C13Sub = Base, Sub
-        out = {"base": Base, "sub": Sub}
+        Base.__qualname__ = "C13Base"
+        DYN.C13Base = Base
+        out = {"base": Base}
+        Other = None
         if "other" in cfg:
             other_ns = ns(cfg["other"])
             if listener:
                 other_ns["_trait_added_changed"] = base_ns["_trait_added_changed"]
             Other = type(T.HasTraits)("C13Other", (root,), other_ns)
-            Both = type(T.HasTraits)("C13Both", (Sub, Other), ns(cfg["both"]))
-            Other.__qualname__, Both.__qualname__ = "C13Other", "C13Both"
-            DYN.C13Other, DYN.C13Both = Other, Both
-            out.update({"other": Other, "both": Both})
+            Other.__qualname__ = "C13Other"
+            DYN.C13Other = Other
+            out["other"] = Other
+
+        def derived():
+            Sub = type(T.HasTraits)("C13Sub", (Base,), ns(cfg["sub"]))
+            Sub.__qualname__ = "C13Sub"
+            DYN.C13Sub = Sub
+            d = {"sub": Sub}
+            if Other is not None:
+                Both = type(T.HasTraits)("C13Both", (Sub, Other), ns(cfg["both"]))
+                Both.__qualname__ = "C13Both"
+                DYN.C13Both = Both
+                d["both"] = Both
+            return d
+        if cfg.get("late_sub"):
+            # (known finding K8, witness only) the derived classes are created when an
+            # instance of one of them is first needed - after the base class was used
+            out["_derived"] = derived
+        else:
+            out.update(derived())
         return out
 
     @staticmethod
@@ -255,6 +272,10 @@ class Prop:
         classes = self.build(cfg)
         insts = []
         for which in cfg["insts"]:
+            if which not in classes:
+                insts.append({"obj": None, "which": which, "itraits": {}, "state": {},
+                              "touched": set()})
+                continue
             o, e = sut(classes[which])
             if e is not None:
                 raise Violation("C13.construct", "constructing the %s class raised %r" % (which, e), None)
@@ -273,6 +294,13 @@ class Prop:
                 env.end_op()
                 continue
             rec = insts[op["o"] % len(insts)]
+            if rec["obj"] is None:
+                # (K8 witness) the class of this instance is created now
+                classes.update(classes.pop("_derived")() if "_derived" in classes else {})
+                rec["obj"], e = sut(classes[rec["which"]])
+                if e is not None:
+                    raise Violation("C13.construct", "constructing the %s class raised %r"
+                                    % (rec["which"], e), i)
             o, which = rec["obj"], rec["which"]
             if k == "restart":
                 if rec["itraits"]:
